@@ -27,7 +27,7 @@ parts:
           the extracted model; whenever it holds the real lexer must return
           exactly the tokens (impl vs spec), and the model lexer too.
 """
-import re
+import re, hashlib
 from vlib import sx, Sym, parse_sx, try_parse, cps
 import corpus
 
@@ -56,6 +56,25 @@ LEXTOK = ['0', '1', '7', '12', '1.5', '.5', '1,5', ',5', '1e3', '1e', '1e+', '0x
           '@', '@1', '@2020', '@2020-', '@2020-01', '@2020-01-', '@2020-01-02', '@2020-13-02', '@2020-01-021', '@0999-01-01', '@2020-1-2', '@20200102', '@x', '@é', '@-', '@2020-01-02x', '@2020-01-02-03',
           "5'", '5"', "5'x", '5"x', "5'é", "5 'é", "5''", "5'1", "5'x'", "5'x.y", "5'λ", "5'%", "to 'x", "to'x'", "in \"x\"", "5 '", "5'€", "5'x€y", "5'ǅ", "5'ª",
           ' ', '  ', '\t', '\n', '\r\n', '\u00a0', '\u2028', '\u3000', '\u0085', '\u200b', '\x0b', '\x0c', '\x1c', '\x1f']
+
+# every character the lexer names in is_valid_in_ident (fixed copies: a change of
+# the Rust lists must show up as a difference, so they are not read from /repo)
+ALLOWED_CPS = [44, 95, 8539, 188, 8540, 189, 8541, 190, 8542, 8537, 8531, 8532, 8538, 8533, 8534, 8535, 8536, 176, 36, 8451, 8457, 8487, 8456, 8485, 8468, 162, 163, 165,
+               8364, 8361, 8362, 8356, 8360, 3647, 8353, 8355, 8358, 8359, 8363, 8365, 8366, 8367, 8369, 65020, 65129, 65504, 65505, 65509, 65510] + \
+              [c for c in range(13169, 13278) if c not in (13173, 13175, 13176, 13177, 13178, 13179, 13180, 13181, 13182, 13183, 13250, 13255, 13259, 13261, 13262, 13265, 13266, 13272, 13274)]
+SPECIAL_CPS = [37, 8240, 8241, 8242, 8243, 8217, 8221, 960, 955, 46, 39, 34] + list(range(48, 58))
+NEIGHBOUR_CPS = [13168, 13173, 13175, 13183, 13250, 13255, 13259, 13261, 13262, 13265, 13266, 13272, 13274, 13278, 8530, 8543, 8450, 8452, 65019, 65021, 187, 191, 161, 164, 166, 175, 177]
+IDENT_TEMPLATES = ['%s', 'a%s', '%sa', '%s1', '1%s', '%s%s', "a'%s", '%s.5', '$%s', '%s%%', '%%%s', "5'a%s"]
+
+
+def ident_family():
+    out = []
+    for cp in ALLOWED_CPS + SPECIAL_CPS + NEIGHBOUR_CPS:
+        ch = chr(cp)
+        for t in IDENT_TEMPLATES:
+            out.append(t.replace('%%', '\0').replace('%s', ch).replace('\0', '%'))
+    return out
+
 
 ADV_TEMPLATES = [
     # after # and inside comments
@@ -129,6 +148,24 @@ def heavy(t):
 # ---------------------------------------------------------------------------
 # comparison
 
+def short(p):
+    """payloads (Debug renderings of numbers / dates / errors) are opaque to the
+    model: long ones are replaced by a prefix and a digest on both sides"""
+    if isinstance(p, bytes) and len(p) > 160:
+        return p[:60] + b'#' + hashlib.sha1(p).hexdigest().encode()
+    return p
+
+
+def short_oracle(o):
+    return [o[0], [[e[0], e[1], short(e[2]), e[3]] for e in o[1]], [[e[0], e[1], short(e[2])] for e in o[2]]]
+
+
+def short_tok(t):
+    if isinstance(t, list) and len(t) == 2 and t[0] in (b'n', b'd'):
+        return [t[0], short(t[1])]
+    return t
+
+
 def trace_line(t, comma):
     return sx([Sym('trace'), cps(t), 1 if comma else 0])
 
@@ -200,7 +237,7 @@ def compare(c, kind, text, comma, ti, orc, mo):
     if mstatus == [b'oracle-missing']:
         c.violation('lex-oracle-table-gap', dict(rep, what='the model asked an oracle question the hook did not answer: model and implementation dispatch differently'), no_input=True)
         return False
-    itoks = [[it[0], it[1]] for it in items]
+    itoks = [[short_tok(it[0]), it[1]] for it in items]
     if itoks != mitems:
         k = 0
         while k < len(itoks) and k < len(mitems) and itoks[k] == mitems[k]:
@@ -212,7 +249,7 @@ def compare(c, kind, text, comma, ti, orc, mo):
         ok = mstatus == [b'ok']
     elif status and status[0] == b'err':
         if mstatus and mstatus[0] == b'err' and len(mstatus) >= 2 and mstatus[1] == b'oracle':
-            ok = mstatus[2] == status[1]
+            ok = mstatus[2] == short(status[1])
         elif mstatus and mstatus[0] == b'err':
             ok = mstatus[1:] == status[2:]
     if not ok:
@@ -247,6 +284,7 @@ def run_tie(c, cases):
             c.violation('parse-number-contract', {'kind': kind, 'text': t, 'comma': cm, 'entry': repr(ent),
                                                   'what': 'parse_number returned Ok with a rest that is not a proper suffix at a char boundary: the hypothesis num_contract of C06_lex_no_panic fails'})
             continue
+        o = short_oracle(o)
         orcs[i] = o
         mlines.append(model_line(t, cm, o))
         midx.append(i)
@@ -284,6 +322,8 @@ def part_tie(c):
     for t in LEXTOK + MB:
         cases.append(('alphabet', t, False))
         cases.append(('alphabet', t, True))
+    for t in ident_family():
+        cases.append(('ident-chars', t, False))
     for t in adversarial(r, 600 if quick else 8000):
         if not heavy(t):
             cases.append(('adversarial', t, r.random() < 0.25))
@@ -438,7 +478,7 @@ def part_print(c):
         p = try_parse(outs[k])
         d = pay_dot if k < len(P_NUMS) else pay_comma
         if isinstance(p, list) and p[0] == [b'ok'] and len(p[1]) == 1 and p[1][0][0][0] == b'n':
-            d[t] = p[1][0][0][1]
+            d[t] = short(p[1][0][0][1])
     mlines, midx = [], []
     for i, ((items, cm, wild), text) in enumerate(zip(cases, texts)):
         o = try_parse(oimp[i])
@@ -459,6 +499,7 @@ def part_print(c):
                 enc.append([[b'y', tok[1]], cps(t), sp])
         if not usable:
             continue
+        o = short_oracle(o)
         mlines.append(sx([Sym('print-check'), 1 if cm else 0, o[0], o[1], o[2], enc]))
         midx.append(i)
     mouts = c.model('lex', mlines)
@@ -483,7 +524,7 @@ def part_print(c):
             continue
         if items_ok == 1 and nums_ok == 1:
             holds += 1
-            itoks = [it[0] for it in p[1]] if isinstance(p, list) and len(p) == 2 and p[0] == [b'ok'] else None
+            itoks = [short_tok(it[0]) for it in p[1]] if isinstance(p, list) and len(p) == 2 and p[0] == [b'ok'] else None
             if itoks != expected:
                 # the theorem's conclusion fails on the real lexer: impl-vs-spec
                 c.violation('printed-text-does-not-lex-to-its-tokens', dict(rep, expected=repr(expected)[:1500], what='hypotheses of C08_lex_print hold (evaluated by the extracted Coq definitions) but the real lexer returns other tokens'))
